@@ -166,11 +166,11 @@ Unspec(e) == CASE e.op = "lincomb" -> SameShape(A(e), B(e)) /\ ~DimsOKSame(A(e),
                [] OTHER -> FALSE
 (* ---- factorisations: structure decided here, spectra compared with prescribed integers, numeric clauses arrive as measured verdicts ---- *)
 NS(o) == [sym |-> o.sym, s |-> o.s, n |-> o.n, legs |-> o.legs, grp |-> o.grp, dg |-> o.dg]
-IsFact(e) == e.op \in {"svd", "qr", "eigh"}
+IsFact(e) == e.op \in {"svd", "qr", "eigh", "eig"}
 ZeroN(e) == Zero(Mod(A(e).sym))
 PosL(e) == G(e.Laxis)
 PosR(e) == G(e.Raxis)
-FactNL(e) == IF e.op = "svd" /\ ~e.nU THEN ZeroN(e) ELSE IF e.op = "eigh" THEN ZeroN(e) ELSE A(e).n      \* charge carried by the left factor
+FactNL(e) == IF e.op \in {"svd", "eig"} /\ ~e.nU THEN ZeroN(e) ELSE IF e.op = "eigh" THEN ZeroN(e) ELSE A(e).n      \* charge carried by the left factor
 AllV(v) == \A k \in DOMAIN v : v[k] = TRUE
 (* the connecting leg: charges must be among those the bipartition implies (NewT of an active left charge) and the dimension cannot      *)
 (* exceed min(rows, cols) of that sector of the legs; it equals it when every allowed block is stored, and is smaller when blocks are      *)
@@ -180,7 +180,7 @@ FactStruct(o, r, np) == /\ o.sym = r.sym /\ o.s = r.s /\ o.n = r.n /\ o.grp = r.
                         /\ \A k \in 1..Len(r.legs) : IF k = np THEN LegLE(o.legs[k], r.legs[k]) ELSE SecSet(o.legs[k]) \subseteq SecSet(r.legs[k])
 NpL(e) == LeavesBefore(Pick(A(e).grp, G1(e.la)), PosL(e)) + 1
 NpR(e) == LeavesBefore(Pick(A(e).grp, G1(e.lb)), PosR(e)) + 1
-FactOK(e) == LET a == A(e)  la == G1(e.la)  lb == G1(e.lb)  sq == (e.op = "eigh")
+FactOK(e) == LET a == A(e)  la == G1(e.la)  lb == G1(e.lb)  sq == (e.op \in {"eigh", "eig"})
                  nleg == SpectrumLeg(a, la, lb, e.sg, FactNL(e), sq)
                  nlegR == IF sq THEN nleg ELSE nleg IN
     /\ e.out = "ok"
@@ -192,7 +192,7 @@ FactOK(e) == LET a == A(e)  la == G1(e.la)  lb == G1(e.lb)  sq == (e.op = "eigh"
     /\ AllV(e.verdicts)
     /\ (e.spectrum # <<>> => e.spectrum = e.S.vals)              \* prescribed integer spectrum per sector, sorted as documented
     /\ (e.full => e.L.legs[NpL(e)] = nleg)                        \* every allowed block stored: exactly min(rows, cols)
-WhyFact(e) == LET a == A(e)  la == G1(e.la)  lb == G1(e.lb)  sq == (e.op = "eigh")
+WhyFact(e) == LET a == A(e)  la == G1(e.la)  lb == G1(e.lb)  sq == (e.op \in {"eigh", "eig"})
                   nleg == SpectrumLeg(a, la, lb, e.sg, FactNL(e), sq) IN
     IF e.out # "ok" THEN <<"factorisation failed", e.out>>
     ELSE IF ~FactStruct(NS(e.L), LeftFactor(a, la, lb, e.sg, FactNL(e), PosL(e), nleg), NpL(e)) THEN <<"left factor structure", WhyStruct(NS(e.L), LeftFactor(a, la, lb, e.sg, FactNL(e), PosL(e), nleg))>>
